@@ -270,21 +270,38 @@ func (ctx *RenderContext) GetVariable(name string) (interface{}, error) {
 		return value, nil
 	}
 
-	// Check globals
+	// Check parent context (the including template, the macro's caller ...)
+	if ctx.parent != nil {
+		return ctx.parent.GetVariable(name)
+	}
+
+	// Globals are the outermost scope: everything a template binds, at whatever
+	// depth of includes, hides a global of the same name
 	if ctx.env != nil {
 		if value, ok := ctx.env.globals[name]; ok {
 			return value, nil
 		}
 	}
 
-	// Check parent context
-	if ctx.parent != nil {
-		return ctx.parent.GetVariable(name)
-	}
-
 	// Return nil with no error for undefined variables
 	// Twig treats undefined variables as empty strings during rendering
 	return nil, nil
+}
+
+// hasVariable reports whether name is bound at all (possibly to null) in this
+// context, one of its parents or the globals
+func (ctx *RenderContext) hasVariable(name string) bool {
+	for c := ctx; c != nil; c = c.parent {
+		if _, ok := c.context[name]; ok {
+			return true
+		}
+	}
+	if ctx.env != nil {
+		if _, ok := ctx.env.globals[name]; ok {
+			return true
+		}
+	}
+	return false
 }
 
 // GetVariableOrNil gets a variable from the context, returning nil silently if not found
@@ -699,13 +716,16 @@ func (ctx *RenderContext) EvaluateExpression(node Node) (interface{}, error) {
 		return n.value, nil
 
 	case *VariableNode:
-		// Check if it's a macro first
+		// A variable bound under this name (set, loop variable, parameter,
+		// include variable, context) is what the name means; a macro of the
+		// same name is only meant when there is no such variable
+		if value, err := ctx.GetVariable(n.name); err != nil || value != nil || ctx.hasVariable(n.name) {
+			return value, err
+		}
 		if macro, ok := ctx.GetMacro(n.name); ok {
 			return macro, nil
 		}
-
-		// Otherwise, look up variable
-		return ctx.GetVariable(n.name)
+		return nil, nil
 
 	case *GetAttrNode:
 		obj, err := ctx.EvaluateExpression(n.node)
